@@ -9,8 +9,16 @@ _m(
     "kde_sigma in [0.3,2]; warp upsample_factor 1..3; image content = unit mean + smooth (Gaussian sigma 1, periodic) noise "
     "scaled to max |.| = contrast in [0.3,0.9], numpy seed drawn).  Two strategies: 'geometry' (distinct images, independent "
     "directions; clauses 1-2) and 'fixed-point' (identical images, one direction, align_translation(upsample_factor in "
-    "{1,2,8}); clauses 1-3).  A case is NON-TRIVIAL when (R != C and at least one scan direction is not a multiple of 90 "
-    "degrees) or number_knots >= 2; distinct = SHA-1 of the canonical JSON of the whole case.",
+    "{1,2,8}); clauses 1-3), and 'history' (same parameter space; the stack holds circularly shifted copies, shifts in "
+    "[-3,3]^2 with at least one non-zero, of one image, one common or per-image scan directions; after the first "
+    "preprocess() come 1..2 rounds of [optional public alignment step: align_translation(upsample_factor 1/2/8), "
+    "align_affine(num_tests=3, refine=False) or align_nonrigid(1 iteration) - the two slow ones only on small stacks] -> "
+    "[optional change of one setting: pad fraction, number_knots, kde_sigma, pad_value, or scan_direction_degrees via its "
+    "setter] -> preprocess() again; clauses 1-2 are judged after every preprocess(), incl. preprocess(); preprocess() with no "
+    "alignment).  A geometry / fixed-point case is NON-TRIVIAL when (R != C and at least one scan direction is not a "
+    "multiple of 90 degrees) or number_knots >= 2; a history case is NON-TRIVIAL when an alignment step displaced some knot "
+    "by >= 0.25 px before a judged re-preprocess (class history_knots_moved; history_same_settings_after_move counts those "
+    "re-initialised with unchanged settings); distinct = SHA-1 of the canonical JSON of the whole case.",
     [
         "scan-direction convention taken from the class docstring + array indexing: angle 0 copies the image unrotated "
         "(fast = +col, slow = +row); angle t applies the proper rotation fast = (-sin t, cos t), slow = (cos t, sin t)",
@@ -32,6 +40,9 @@ _m(
         "TV(kernel) ~ 2.8 per px, so K <= 2.8/0.5 ~ 6 where the count is >= 0.5 (K = 10 used, measured <= 1.2) and K <= "
         "2 * 2.8 / threshold(1e-3) ~ 6000 anywhere (measured <= 190: the count threshold clamp amplifies the slope at "
         "the rim of the image)",
+        "history cases: every preprocess() call re-initialises the geometry, so 'before any drift is estimated' applies to "
+        "the object it returns whatever alignment ran before; what the alignment steps do to the (arbitrary) shifted stack "
+        "is not judged, and an exception raised inside an alignment step is counted (history_align_raised:*), not reported",
         "image contrast >= 0.3 of the mean so the zero-lag auto-correlation peak is unique with a margin >> float32 eps",
     ],
     workers=(1, 16),
@@ -41,7 +52,8 @@ _m(
     text="Generated-input search: transform_coordinates(initial knots) is compared with the closed form centre + rotation for "
     "every image of every stack; warp_image weights are summed (and their centroid compared with the canvas centre when no "
     "border interaction is possible); identical stacks are run through align_translation and knots / warped images compared "
-    "before and after.  Exploration only: no absence claim.",
+    "before and after; histories preprocess -> align_* -> preprocess re-judge coordinates and weights on the re-initialised "
+    "object.  Exploration only: no absence claim.",
     note="The rotation sense is a convention read off the documented behaviour at 0 degrees plus properness of the rotation; a "
     "globally mirrored convention would need the maintainers' intent to decide.  Non-zero shifts (that align_translation moves "
     "knots by the right amount on both axes) are outside the statement and not judged.",
